@@ -26,6 +26,8 @@ impl<A: VpArray> SmallVec<A> {
     #[verifier::external_body]
     pub fn iter<'b>(&'b self) -> (r: VpIter<&'b A::Item>)
         ensures r.rest().len() == self@.len(), forall|k: int| 0 <= k < self@.len() ==> *(#[trigger] r.rest()[k]) == self@[k],
+            // (instances for the first and the last element, stated so that `find` / `rfind` results can be related to them)
+            self@.len() > 0 ==> *(r.rest()[0]) == self@[0] && *(r.rest()[r.rest().len() - 1]) == self@[self@.len() - 1],
     { unimplemented!() }
 }
 /// rule R9: `for x in small_vec` (by value)
